@@ -86,7 +86,8 @@ ChSpread(e)  == [k |-> "spread", e |-> e]
 ChElem(el)   == [k |-> "elem", el |-> el]
 
 TagHtml(name)            == [k |-> "html", name |-> name]
-TagCustom(name)          == [k |-> "custom", name |-> name]
+TagCustom(name)          == [k |-> "custom", name |-> name, bound |-> FALSE, rv |-> Undef]
+TagCustomBound(name, rv) == [k |-> "custom", name |-> name, bound |-> TRUE, rv |-> rv]     \* a pattern-matching name that is also bound
 TagComp(name, bound, rv) == [k |-> "comp", name |-> name, bound |-> bound, rv |-> rv]
 TagMember(obj, prop, rv) == [k |-> "member", obj |-> obj, prop |-> prop, rv |-> rv]
 TagThis(prop, rv)        == [k |-> "this", prop |-> prop, rv |-> rv]
@@ -105,6 +106,9 @@ PatternMatches(p, name) ==          \* the regex alphabet in use, by table
   CASE p = "^i-"  -> name \in {"i-foo", "i-bar"}
     [] p = "^x-"  -> name \in {"x-foo"}
     [] p = "foo$" -> name \in {"i-foo", "x-foo"}
+    [] p = "^Ui" -> name \in {"UiBox"}
+    [] p = "(?i)^ion-" -> name \in {"ion-x", "ION-y", "Ion-z"}      \* the inline flag concerns this pattern only
+    [] p = "^widget$" -> name \in {"widget"}
     [] OTHER -> FALSE
 AnyPatternMatches(o, name) == \E i \in 1..Len(o.patterns) : PatternMatches(o.patterns[i], name)
 
